@@ -69,6 +69,7 @@ class ModuleInfo:
 class Repo:
     def __init__(self):
         self.modules: dict[str, ModuleInfo] = {}
+        self._seg_cache: dict[int, str] = {}
 
     def module(self, name: str) -> ModuleInfo:
         if name in self.modules:
@@ -126,7 +127,12 @@ class Repo:
         return out
 
     def source_segment(self, mod: ModuleInfo, node: ast.AST) -> str:
-        return ast.get_source_segment(mod.source, node) or ""
+        k = id(node)
+        c = self._seg_cache.get(k)
+        if c is None:
+            c = ast.get_source_segment(mod.source, node) or ""
+            self._seg_cache[k] = c
+        return c
 
     def func_sha(self, mod: ModuleInfo, node: ast.AST) -> str:
         return hashlib.sha256(ast.dump(node).encode()).hexdigest()[:12]
